@@ -49,6 +49,7 @@ func cmdFn(args []string) {
 	dump := fs.String("dump", "", "dump the query of the obligation with this name")
 	only := fs.String("only", "", "only obligations containing this substring")
 	verbose := fs.Bool("v", false, "verbose")
+	fs.BoolVar(&explainNoQuant, "whynq", false, "with -why: leave quantified assumptions out (to get a candidate model)")
 	trace := fs.Bool("calls", false, "print call ordinals while encoding")
 	why := fs.String("why", "", "print a model for the named failing obligation")
 	watch := fs.String("watch", "", "spec expressions (separated by ;) to evaluate in the model (-why)")
